@@ -54,6 +54,9 @@ type verifRequest struct {
 	Phases     [][]verifDatagram `json:"phases"`
 	// max-udp-size of the protocols other than Proto (0 = same as UDPSize)
 	OtherUDPSize int `json:"other_udpsize"`
+	// Churn > 0: after every Churn-th datagram of a phase one running worker of Proto's pipeline is told to
+	// quit and a new one is started, the way dynWorkers shrinks and grows the pool while traffic flows
+	Churn int `json:"churn"`
 
 	// options
 	Args   []string          `json:"args"`
@@ -181,7 +184,8 @@ func verifPipeline(req *verifRequest) (resp verifResponse) {
 		var (
 			wg    sync.WaitGroup
 			dwg   sync.WaitGroup
-			quits []chan struct{}
+			quits []chan struct{} // quit channels of the running workers; those of Proto's pipeline first
+			nmain int             // how many of them belong to Proto's pipeline
 			pr    verifPhaseResult
 			stop  = make(chan struct{})
 		)
@@ -238,8 +242,23 @@ func verifPipeline(req *verifRequest) (resp verifResponse) {
 					p.worker(wQuit)
 				}()
 			}
+			if name == req.Proto {
+				nmain = len(quits)
+			}
 		}
-		for _, d := range phase {
+		for k, d := range phase {
+			if req.Churn > 0 && k > 0 && k%req.Churn == 0 && nmain > 0 {
+				// the longest-running worker of the pipeline under test leaves, a new one joins
+				close(quits[0])
+				wQuit := make(chan struct{})
+				copy(quits, quits[1:nmain])
+				quits[nmain-1] = wQuit
+				wg.Add(1)
+				go func() {
+					defer wg.Done()
+					pipes[req.Proto].worker(wQuit)
+				}()
+			}
 			raddr, data, err := verifUDPAddr(d)
 			if err != nil {
 				resp.Error = err.Error()
